@@ -4,6 +4,7 @@ import (
 	"context"
 	"encoding/json"
 	"fmt"
+	"k8s.io/apimachinery/pkg/api/resource"
 	"sort"
 	"strings"
 
@@ -95,13 +96,25 @@ func c18Exec(c *Ctx, op string) string {
 			return "bad-op"
 		}
 		hostNet, ignored, hasNets, hasReq, hasPN, fixedName, ds, useENI := pf[0] == "1", pf[2] == "1", pf[3] == "1", pf[4] == "1", pf[5] == "1", pf[6] == "1", pf[7] == "1", pf[8] == "1"
-		var containers int
-		fmt.Sscanf(pf[1], "%d", &containers)
+		var containers, pre int
+		if i := strings.Index(pf[1], "r"); i >= 0 {
+			fmt.Sscanf(pf[1][:i], "%d", &containers)
+			fmt.Sscanf(pf[1][i+1:], "%d", &pre)
+		} else {
+			fmt.Sscanf(pf[1], "%d", &containers)
+		}
 		pod := &corev1.Pod{TypeMeta: metav1.TypeMeta{Kind: "Pod", APIVersion: "v1"},
 			ObjectMeta: metav1.ObjectMeta{Name: "web-0", Namespace: "ns1", Labels: map[string]string{"app": "web"}, Annotations: map[string]string{}},
 			Spec:       corev1.PodSpec{HostNetwork: hostNet}}
 		for i := 0; i < containers; i++ {
 			pod.Spec.Containers = append(pod.Spec.Containers, corev1.Container{Name: fmt.Sprintf("c%d", i), Image: "img"})
+		}
+		if pre > 0 && containers > 0 {
+			// the pod template already declares the device resources
+			q := resource.MustParse(fmt.Sprint(pre))
+			pod.Spec.Containers[0].Resources = corev1.ResourceRequirements{
+				Requests: corev1.ResourceList{"aliyun/eni": q, "aliyun/member-eni": q},
+				Limits:   corev1.ResourceList{"aliyun/eni": q, "aliyun/member-eni": q}}
 		}
 		if ignored {
 			pod.Labels[types.IgnoreByTerway] = "true"
@@ -306,15 +319,24 @@ func c18Exec(c *Ctx, op string) string {
 		res := "-"
 		if len(patched.Spec.Containers) > 0 {
 			var rs []string
+			matching := 0
 			for name, q := range patched.Spec.Containers[0].Resources.Requests {
 				lq := patched.Spec.Containers[0].Resources.Limits[name]
 				if lq.Value() != q.Value() {
 					c.Violate("C18/device-request/limit", "device request and limit differ", op)
 				}
 				rs = append(rs, fmt.Sprintf("%s:%d", strings.TrimPrefix(string(name), "aliyun/"), q.Value()))
-				if inject && int(q.Value()) != len(pa.PodNetworks) {
-					c.Violate("C18/device-request/count", fmt.Sprintf("device request %d for %d networks", q.Value(), len(pa.PodNetworks)), op)
+				if int(q.Value()) == len(pa.PodNetworks) {
+					matching++
 				}
+			}
+			// the injected request equals the number of networks; a template that declared the device resources itself
+			// (both kinds, quantity pre) keeps the other kind, so at least one entry must carry the count
+			if inject && len(rs) > 0 && matching == 0 {
+				c.Violate("C18/device-request/count", fmt.Sprintf("device requests %v for %d networks", rs, len(pa.PodNetworks)), op)
+			}
+			if inject && pre == 0 && matching != len(rs) {
+				c.Violate("C18/device-request/count", fmt.Sprintf("device requests %v for %d networks", rs, len(pa.PodNetworks)), op)
 			}
 			sort.Strings(rs)
 			if len(rs) > 0 {
@@ -458,7 +480,12 @@ func c18Run(c *Ctx) {
 			prev = Pick(r, zones)
 		}
 		cluster := Pick(r, []string{"vsw-9:sg-9", "vsw-9,vsw-8:sg-8,sg-9", "vsw-9:sg-9", "-:sg-9", "-"})
-		pod := fmt.Sprintf("%s,%d,%s,%s,%s,%s,%s,%s,%s", b01(r.Chance(5)), Pick(r, []int{1, 1, 2, 0}), b01(r.Chance(5)), b01(hasNets), b01(hasReq), b01(hasPN),
+		cont := fmt.Sprint(Pick(r, []int{1, 1, 2, 0}))
+		if cont != "0" && r.Chance(20) {
+			cont += fmt.Sprintf("r%d", 1+r.Intn(4)) // the template declares the device resources itself
+			c.Count("pre-declared-device-resource")
+		}
+		pod := fmt.Sprintf("%s,%s,%s,%s,%s,%s,%s,%s,%s", b01(r.Chance(5)), cont, b01(r.Chance(5)), b01(hasNets), b01(hasReq), b01(hasPN),
 			b01(fixedName), b01(ds), b01(r.Chance(15)))
 		op := fmt.Sprintf("wh.adm %s %s %s %s %s %s %s %s %s %s", pod, anno, reqs, pnS, b01(r.Chance(92)), prev, b01(r.Chance(30)), b01(r.Chance(70)), b01(r.Chance(60)), cluster)
 		out := c18Exec(c, op)
